@@ -155,6 +155,15 @@ func (st *State) resolve(addr *smt.Term, n int, write bool) (o *Object, off int,
 			st.end("UNSUPPORTED", "dereference of a type token / itab (%#x)", k)
 		}
 		if rest != nil {
+			// a pointer assembled from conditional bytes (loaded at a symbolic offset): fork on its
+			// feasible values (at most 64) instead of giving up
+			if !st.w.Opt.IsConcrete && !st.lenient && st.resolveDepth < 2 {
+				st.resolveDepth++
+				k := st.concretize(addr, "pointer value")
+				o, off, symOff = st.resolve(k, n, write)
+				st.resolveDepth--
+				return o, off, symOff
+			}
 			st.end("UNSUPPORTED", "cannot resolve symbolic address %v", addr)
 		}
 		st.end("OOB", "access to unmapped address %#x", k)
